@@ -29,6 +29,9 @@ Inductive xstate :=
 | XRun
 | XWait (rest : list (list bytes)) (* wrote to the SSL object, waits for the transport send lock *)
 | XFlush (rest : list (list bytes)) (* holds the lock, suspended in transport.send_all *)
+| XRdWait                          (* a reader (recv): found ciphertext pending, waits for the send lock to flush it *)
+| XRdFlush                         (* a reader flushing under the send lock *)
+| XRecv                            (* a reader parked in transport.recv_into (no data ever comes in these scripts) *)
 | XDone (code : Z).
 
 Record tls := mkTls {
@@ -37,10 +40,12 @@ Record tls := mkTls {
   x_calls : list bytes;            (* payload (plaintext of the records) of each transport.send_all call, newest first *)
   x_tasks : list xstate;
   x_writes : list bytes;           (* ghost: every write to the SSL object, newest first *)
-  x_crashed : bool
+  x_crashed : bool;
+  x_readers : list tid             (* the tasks that call recv() instead of sending *)
 }.
 
-Definition tls_init (progs : list (list (list bytes))) : tls := mkTls fl_init [] [] (map XNew progs) [] false.
+Definition tls_init (progs : list (list (list bytes))) (readers : list tid) : tls :=
+  mkTls fl_init [] [] (map XNew progs) [] false readers.
 
 Fixpoint updx {X} (n : nat) (x : X) (l : list X) : list X :=
   match l, n with
@@ -50,19 +55,19 @@ Fixpoint updx {X} (n : nat) (x : X) (l : list X) : list X :=
   end.
 
 Definition x_set (t : tid) (x : xstate) (s : tls) : tls :=
-  mkTls (x_lock s) (x_wbio s) (x_calls s) (updx t x (x_tasks s)) (x_writes s) (x_crashed s).
+  mkTls (x_lock s) (x_wbio s) (x_calls s) (updx t x (x_tasks s)) (x_writes s) (x_crashed s) (x_readers s).
 Definition x_with_lock (l : fl) (s : tls) : tls :=
-  mkTls l (x_wbio s) (x_calls s) (x_tasks s) (x_writes s) (x_crashed s).
+  mkTls l (x_wbio s) (x_calls s) (x_tasks s) (x_writes s) (x_crashed s) (x_readers s).
 
 Definition x_unlock (t : tid) (s : tls) : tls :=
   match fl_release t (x_lock s) with
   | Some l => x_with_lock l s
-  | None => mkTls (x_lock s) (x_wbio s) (x_calls s) (x_tasks s) (x_writes s) true
+  | None => mkTls (x_lock s) (x_wbio s) (x_calls s) (x_tasks s) (x_writes s) true (x_readers s)
   end.
 
 (* ssl_object.write(data): one record into the write BIO *)
 Definition ssl_write (d : bytes) (s : tls) : tls :=
-  mkTls (x_lock s) (x_wbio s ++ [d]) (x_calls s) (x_tasks s) (d :: x_writes s) (x_crashed s).
+  mkTls (x_lock s) (x_wbio s ++ [d]) (x_calls s) (x_tasks s) (d :: x_writes s) (x_crashed s) (x_readers s).
 
 (* the whole backlog of one packet, chunk after chunk, synchronously *)
 Definition ssl_write_all (p : list bytes) (s : tls) : tls := fold_left (fun s d => ssl_write d s) p s.
@@ -72,7 +77,7 @@ Definition ssl_write_all (p : list bytes) (s : tls) : tls := fold_left (fun s d 
 Definition flush (s : tls) : tls * bool :=
   match x_wbio s with
   | [] => (s, false)
-  | b => (mkTls (x_lock s) [] (concat b :: x_calls s) (x_tasks s) (x_writes s) (x_crashed s), true)
+  | b => (mkTls (x_lock s) [] (concat b :: x_calls s) (x_tasks s) (x_writes s) (x_crashed s) (x_readers s), true)
   end.
 
 (* t holds the lock; k = the rest of its program once this send_all returned *)
@@ -90,13 +95,28 @@ Fixpoint x_run_task (t : tid) (prog : list (list bytes)) (s : tls) {struct prog}
       else x_set t (XWait rest) (x_with_lock l s1)
   end.
 
+(* recv(): ssl_object.read raises SSLWantReadError; `if self._write_bio.pending: async with send_lock: if pending: flush`;
+   then it waits for incoming data under the receive lock *)
+Definition rd_after_lock (t : tid) (s : tls) : tls :=
+  let '(s1, susp) := flush s in
+  if susp then x_set t XRdFlush s1 else x_set t XRecv (x_unlock t s1).
+
+Definition rd_enter (t : tid) (s : tls) : tls :=
+  match x_wbio s with
+  | [] => x_set t XRecv s
+  | _ => let '(l, got) := fl_acquire t (x_lock s) in
+         if got then rd_after_lock t (x_with_lock l s) else x_set t XRdWait (x_with_lock l s)
+  end.
+
 Inductive xlabel := TStart (t : tid) | TResume (t : tid) | TWrite (t : tid) | TFail (t : tid) | TCancel (t : tid).
 
 Definition x_next (s : tls) (l : xlabel) : option tls :=
   match l with
   | TStart t =>
       match nth_error (x_tasks s) t with
-      | Some (XNew prog) => Some (x_run_task t prog (x_set t XRun s))
+      | Some (XNew prog) =>
+          if mem_tid t (x_readers s) then Some (rd_enter t (x_set t XRun s))
+          else Some (x_run_task t prog (x_set t XRun s))
       | _ => None
       end
   | TResume t =>
@@ -106,11 +126,17 @@ Definition x_next (s : tls) (l : xlabel) : option tls :=
           | Some l => Some (after_lock t rest (x_run_task t rest) (x_with_lock l (x_set t XRun s)))
           | None => None
           end
+      | Some XRdWait =>
+          match fl_resume t (x_lock s) with
+          | Some l => Some (rd_after_lock t (x_with_lock l (x_set t XRun s)))
+          | None => None
+          end
       | _ => None
       end
   | TWrite t =>
       match nth_error (x_tasks s) t with
       | Some (XFlush rest) => Some (x_run_task t rest (x_unlock t (x_set t XRun s)))
+      | Some XRdFlush => Some (x_set t XRecv (x_unlock t s))
       | _ => None
       end
   | TFail t =>
@@ -127,6 +153,13 @@ Definition x_next (s : tls) (l : xlabel) : option tls :=
           | None => None
           end
       | Some (XFlush _) => Some (x_set t (XDone 11) (x_unlock t s))
+      | Some XRdWait =>
+          match fl_cancel t (x_lock s) with
+          | Some l => Some (x_set t (XDone 11) (x_with_lock l s))
+          | None => None
+          end
+      | Some XRdFlush => Some (x_set t (XDone 11) (x_unlock t s))
+      | Some XRecv => Some (x_set t (XDone 11) s)
       | _ => None
       end
   end.
